@@ -15,15 +15,14 @@ Open Scope Z_scope.
 
 (* ---------------- what the encoders write (all i64 / i128 inputs, wrap included) ---------------- *)
 
-(* `top_eff w r v` = v, or v - 2^w when the first carry `x - digit` (digit of radix 2^r) wraps, i.e. v - wrap r v >= 2^(w-1);
-   `enc_spec b k a_size V` = balanced digits of radix 2^b of bdiv (b-krem) V, then wrap (b-krem) V * 2^krem, then zeros *)
+(* `enc_spec b k a_size v` = balanced digits of radix 2^b of bdiv (b-krem) v, then wrap (b-krem) v * 2^krem, then zeros *)
 Theorem C08_encode_i64_spec : forall b, 1 <= b <= 62 -> forall k (a_size : nat) v, 1 <= k <= Z.of_nat a_size * b ->
-  in_range 64 v -> enc_i64 b k a_size v = enc_spec b k a_size (top_eff 64 (b - enc_krem b k) v).
+  in_range 64 v -> enc_i64 b k a_size v = enc_spec b k a_size v.
 Proof. exact enc_i64_spec. Qed.
 Print Assumptions C08_encode_i64_spec.
 
 Theorem C08_encode_i128_spec : forall b, 1 <= b <= 62 -> forall k (a_size : nat) v, 1 <= k <= Z.of_nat a_size * b ->
-  in_range 128 v -> enc_i128 b k a_size v = enc_spec b k a_size (top_eff 128 b v).
+  in_range 128 v -> enc_i128 b k a_size v = enc_spec b k a_size v.
 Proof. exact enc_i128_spec. Qed.
 Print Assumptions C08_encode_i128_spec.
 
@@ -44,35 +43,21 @@ Theorem C08_encode_digits_balanced_i128 : forall b, 1 <= b <= 62 -> forall k (a_
 Proof. exact enc_i128_digits. Qed.
 Print Assumptions C08_encode_digits_balanced_i128.
 
-(* the limbs hold v / 2^k on the torus: sum_j limb_j 2^((size-1-j) b) = v * 2^krem modulo 2^(size b) - provided the
-   precision does not exceed the word width or the first carry does not wrap *)
+(* the limbs hold v / 2^k on the torus: sum_j limb_j 2^((size-1-j) b) = v * 2^krem modulo 2^(size b), for every i64 / i128 v
+   (before the repair ba594a2 of the first carry this failed for k above the word width at the top of the type) *)
 Theorem C08_encode_value_i64 : forall b, 1 <= b <= 62 -> forall k (a_size : nat) v, 1 <= k <= Z.of_nat a_size * b ->
-  in_range 64 v -> k <= 64 \/ v - wrap (b - enc_krem b k) v < 2 ^ 63 ->
+  in_range 64 v ->
   (e_lval b (firstn (enc_size b k) (enc_i64 b k a_size v)) - v * 2 ^ enc_krem b k)
     mod 2 ^ (Z.of_nat (enc_size b k) * b) = 0.
 Proof. exact enc_i64_value. Qed.
 Print Assumptions C08_encode_value_i64.
 
 Theorem C08_encode_value_i128 : forall b, 1 <= b <= 62 -> forall k (a_size : nat) v, 1 <= k <= Z.of_nat a_size * b ->
-  in_range 128 v -> k <= 128 \/ v - wrap b v < 2 ^ 127 ->
+  in_range 128 v ->
   (e_lval b (firstn (enc_size b k) (enc_i128 b k a_size v)) - v * 2 ^ enc_krem b k)
     mod 2 ^ (Z.of_nat (enc_size b k) * b) = 0.
 Proof. exact enc_i128_value. Qed.
 Print Assumptions C08_encode_value_i128.
-
-(* DEFECT (known finding encode.first_carry_wraps): without that proviso the statement is false although |v| < 2^(k-2) *)
-Theorem C08_encode_value_top_refuted : exists b k a_size v, 2 <= b <= 62 /\ 1 <= k <= Z.of_nat a_size * b /\
-  in_range 64 v /\ 4 * Z.abs v < 2 ^ k /\
-  (e_lval b (firstn (enc_size b k) (enc_i64 b k a_size v)) - v * 2 ^ enc_krem b k) mod 2 ^ (Z.of_nat (enc_size b k) * b) <> 0 /\
-  dec_vec 128 b k (enc_i64 b k a_size v) <> v.
-Proof. exact value_top_i64_refuted. Qed.
-Print Assumptions C08_encode_value_top_refuted.
-
-Theorem C08_encode_value_top_i128_refuted : exists b k a_size v, 2 <= b <= 62 /\ 1 <= k <= Z.of_nat a_size * b /\
-  in_range 128 v /\ 4 * Z.abs v < 2 ^ k /\
-  (e_lval b (firstn (enc_size b k) (enc_i128 b k a_size v)) - v * 2 ^ enc_krem b k) mod 2 ^ (Z.of_nat (enc_size b k) * b) <> 0.
-Proof. exact value_top_i128_refuted. Qed.
-Print Assumptions C08_encode_value_top_i128_refuted.
 
 (* ---------------- the decoders ---------------- *)
 
@@ -193,9 +178,9 @@ Theorem C08_encode_decode_coeff_boundary : forall b, 1 <= b <= 62 -> forall k (a
 Proof. exact rt_coeff_boundary. Qed.
 Print Assumptions C08_encode_decode_coeff_boundary.
 
-(* an i64 encoding read back at 128 bits is exact as long as the first carry did not wrap *)
+(* an i64 encoding read back at 128 bits *)
 Theorem C08_encode_i64_decode_i128 : forall b, 1 <= b <= 62 -> forall k (a_size : nat) v, 1 <= k <= Z.of_nat a_size * b ->
-  in_range 64 v -> v - wrap (b - enc_krem b k) v < 2 ^ 63 -> enc_lo b k <= v <= enc_hi b k ->
+  in_range 64 v -> enc_lo b k <= v <= enc_hi b k ->
   dec_vec 128 b k (enc_i64 b k a_size v) = v.
 Proof. exact rt_i64_dec128. Qed.
 Print Assumptions C08_encode_i64_decode_i128.
